@@ -760,6 +760,11 @@ def build_real_llhratio(R, N):
     return pmm, llh
 
 
+def bits(xs):
+    """set of the bit patterns (NaN equals NaN)"""
+    return {np.float64(x).tobytes() for x in xs}
+
+
 def doc_ab(R, N):
     """first and second derivative of log Lambda at ns = 0 from the manual's formulas, in exact rationals"""
     F = Fraction
@@ -828,11 +833,11 @@ def run_hist_ts_case(ctx, case):
                 ctx.violation(site_t, 'raises-' + exc_name(ex) + '-on-repeated-call',
                               'repeated evaluation for the same fit result raises', case=case, impl=[ts, bs])
                 return
-            if len(set(bs)) != 1:
+            if len(bits(bs)) != 1:
                 ctx.violation(site_b, 'repeated-call-differs',
                               f'calculate_ns_grad2(ns=0) called three times for the same fit result: {bs}', case=case, impl=bs,
                               predicate='the second derivative is a function of the fit result')
-            if len(set(ts)) != 1:
+            if len(bits(ts)) != 1:
                 ctx.violation(site_t, 'repeated-call-differs',
                               f'TS evaluated three times for the same fit result: {ts}', case=case, impl=ts,
                               predicate='the test statistic is a function of the fit result')
@@ -849,7 +854,7 @@ def run_hist_ts_case(ctx, case):
                         ctx.violation(site_b, 'wrong-second-derivative', f'call {k + 1}: {v}, expected {float(b)}',
                                       case=case, impl=bs)
                         break
-            if w1 != w2 or w1 != 2 * ll or tuple(p1) != tuple(p2):
+            if len(bits([w1, w2, 2 * ll])) != 1 or len(bits([p1[0], p2[0]])) != 1 or len(bits([p1[1], p2[1]])) != 1:
                 ctx.violation('WilksTestStatistic.__call__', 'repeated-call-differs', f'{w1} {w2} / {p1} {p2}', case=case)
             if (fpv.tobytes(), grads.tobytes()) != snap or Rarr.tobytes() != rs:
                 ctx.violation(site_t, 'argument-array-modified', 'fitparam_values / grads / sample array changed by the calls',
@@ -876,7 +881,7 @@ def run_hist_ts_case(ctx, case):
             ctx.violation('MultiDatasetTCLLHRatio.calculate_ns_grad2', 'raises-' + exc_name(ex) + '-on-repeated-call',
                           'repeated evaluation raises', case=case, impl=[ts, bs])
             return
-        if len(set(bs)) != 1 or len(set(ts)) != 1:
+        if len(bits(bs)) != 1 or len(bits(ts)) != 1:
             ctx.violation('MultiDatasetTCLLHRatio.calculate_ns_grad2', 'repeated-call-differs',
                           f'three calls for the same fit result: b = {bs}, TS = {ts}', case=case, impl=[bs, ts],
                           predicate='the test statistic is a function of the fit result')
